@@ -131,6 +131,17 @@ func loadTemplates(w *World) (*TplWorld, error) {
 	if err := tw.loadHelpers(); err != nil {
 		return nil, err
 	}
+	// `{{#ifEqual a b}}…{{/ifEqual}}` without an else branch is `{{#equal a b}}…{{/equal}}` when the
+	// project's ifEqual helper is the reviewed one (Str(a) == Str(b) ? Fn() : Inverse())
+	if tw.ifEqualIsStrEquality() {
+		for _, e := range tw.Order {
+			eng := tw.Engines[e]
+			renameIfEqual(eng.Routes.Prog)
+			for _, t := range eng.Partials {
+				renameIfEqual(t.Prog)
+			}
+		}
+	}
 	nst := 0
 	for _, e := range tw.Order {
 		eng := tw.Engines[e]
@@ -1032,4 +1043,65 @@ func (tw *TplWorld) inlineNewPartials(eng *TplEngine) {
 			delete(eng.Partials, nm)
 		}
 	}
+}
+
+func renameIfEqual(p *hast.Program) {
+	if p == nil {
+		return
+	}
+	for _, st := range p.Body {
+		b, ok := st.(*hast.BlockStatement)
+		if !ok {
+			continue
+		}
+		if b.Expression != nil && b.Expression.HelperName() == "ifEqual" && len(b.Expression.Params) == 2 && b.Expression.Hash == nil && b.Inverse == nil {
+			if hp, ok := b.Expression.Path.(*hast.PathExpression); ok {
+				hp.Original, hp.Parts = "equal", []string{"equal"}
+			}
+		}
+		renameIfEqual(b.Program)
+		renameIfEqual(b.Inverse)
+	}
+}
+
+// ifEqualIsStrEquality: the function registered as "ifEqual" compares raymond.Str of its two
+// operands with == and renders Fn() on equality, Inverse() otherwise - nothing else.
+func (tw *TplWorld) ifEqualIsStrEquality() bool {
+	w := tw.W
+	fi := w.fn("generator/routes.registerHandlebarsHelpers")
+	if fi == nil {
+		return false
+	}
+	info := fi.Pkg.TypesInfo
+	ok := false
+	w.inspectRegion(fi, func(n ast.Node) bool {
+		c, isCall := n.(*ast.CallExpr)
+		if !isCall || len(c.Args) != 2 || calleeOfCall(info, c) != "github.com/aymerick/raymond.RegisterHelper" {
+			return true
+		}
+		if tv := info.Types[c.Args[0]]; tv.Value == nil || constString(tv.Value) != "ifEqual" {
+			return true
+		}
+		fl, isLit := ast.Unparen(c.Args[1]).(*ast.FuncLit)
+		if !isLit || len(fl.Body.List) != 2 {
+			return true
+		}
+		is, ok1 := fl.Body.List[0].(*ast.IfStmt)
+		ret, ok2 := fl.Body.List[1].(*ast.ReturnStmt)
+		if !ok1 || !ok2 || is.Else != nil || is.Init != nil || len(is.Body.List) != 1 || len(ret.Results) != 1 {
+			return true
+		}
+		be, ok3 := ast.Unparen(is.Cond).(*ast.BinaryExpr)
+		then, ok4 := is.Body.List[0].(*ast.ReturnStmt)
+		if !ok3 || !ok4 || be.Op != token.EQL || len(then.Results) != 1 {
+			return true
+		}
+		isStr := func(e ast.Expr) bool {
+			cl, isC := ast.Unparen(e).(*ast.CallExpr)
+			return isC && len(cl.Args) == 1 && calleeOfCall(info, cl) == "github.com/aymerick/raymond.Str"
+		}
+		ok = isStr(be.X) && isStr(be.Y) && strings.HasSuffix(exprString(then.Results[0]), ".Fn()") && strings.HasSuffix(exprString(ret.Results[0]), ".Inverse()")
+		return true
+	})
+	return ok
 }
